@@ -43,6 +43,7 @@ RULE = ("(1) ALL sequences of server behaviours {newer, same, older, up-to-date,
         "(3a) ALL interleavings of two writers' file steps (70 for create/write/close/rename), cache read after every step; (3b) the real "
         "ofxget._queue_scans with random delays and yield injection; (4) client pairs over equal/different ORG x FID x URL (incl. same host, "
         "different path; both ORG and FID unset). A case = one history / crash point / schedule / pair")
+RULE += ' Added later: identities that differ only beyond a dozen characters or read like a missing value, sign-on responses carrying a DTPROFUP of their own, one client used by two threads for two URLs, restart semantics, TMPDIR on another file system.'
 ASSUMPTIONS = ["the fake server replaces only urllib's http_open/https_open; profile bodies are hand-written templates (vf/net/ofxserver.py)",
                "a restart = a child process with its own PYTHONHASHSEED; half of the crash points run with TMPDIR on another file system (/dev/shm) than the data directory when one is available",
                "mid-write crashes are emulated at Python level (proxy writes half, flushes, os._exit); a stray *.tmp file is not the cache and is not judged",
